@@ -300,6 +300,11 @@ def _child(pid, tier, seed, replay):
       ck.write_evidence()
     except Exception:
       pass
+    if ck.violations:
+      # a violation was already reported (VIOLATION line + replay file) before the harness failed - typically the same broken
+      # behaviour of the tree then also breaks a later stage of the harness: the verdict of the run is the violation
+      print('HARNESS-ERROR-AFTER-VIOLATION property=%s (exit status 1: the violation above stands)' % pid, flush=True)
+      sys.exit(1)
     print('HARNESS-ERROR property=%s' % pid, flush=True)
     sys.exit(2)
   ev = ck.write_evidence()
